@@ -277,6 +277,10 @@ def run_actions(actions, phase, ctx):
             release_thread(a['ev'], a.get('wait_gone', True))
         elif do == 'garbage':
             make_garbage(a)
+        elif do == 'uncollectable':
+            # what an uncollectable object (or gc.DEBUG_SAVEALL) leaves
+            import gc
+            gc.garbage.append(Node(a.get('tag', 'leftover')))
         elif do == 'sleep':
             time.sleep(a.get('s', 0.01))
         elif do == 'probe_streams':
